@@ -18,6 +18,7 @@ import shutil
 import tempfile
 
 from mbt import engine
+from drivers import common as _common
 from drivers import fsio
 from drivers.common import atoms_text, run_async
 
@@ -153,7 +154,7 @@ def replay_path(item):
     os.chdir(L["root"])
     rel = "/".join(SEG[k] for k in case["segs"])
     path = os.path.join(L["root"], rel) if case["abs"] else rel
-    w, v = WriteTool(), ValidateTool()
+    w, v = _common.tool("write"), _common.tool("validate")
 
     def tool(**kw):
         def f():
@@ -281,7 +282,7 @@ def replay_name(item):
             if route == "load_schema_by_name":
                 loaded = load_schema_by_name(name) is not None
             else:
-                r = run_async(ValidateTool().execute(content=DOC, schema=name))
+                r = run_async(_common.tool("validate").execute(content=DOC, schema=name))
                 loaded = r.get("validation_status") in ("VALIDATED", "INVALID")
         except Exception:
             loaded = False
